@@ -16,6 +16,22 @@ import (
 type Unit struct {
 	Name   string `json:"name"`
 	Params any    `json:"params,omitempty"`
+	// Slice/Slices: this unit explores slice Slice of Slices of the unit's choice tree (see
+	// ExploreSlice); Slices <= 1 means the whole tree.
+	Slice  int `json:"slice,omitempty"`
+	Slices int `json:"slices,omitempty"`
+}
+
+// Sliced returns n units that together explore u's choice tree.
+func Sliced(u Unit, n int) []Unit {
+	if n <= 1 {
+		return []Unit{u}
+	}
+	out := make([]Unit, n)
+	for s := 0; s < n; s++ {
+		out[s] = Unit{Name: fmt.Sprintf("%s #%d/%d", u.Name, s, n), Params: u.Params, Slice: s, Slices: n}
+	}
+	return out
 }
 
 // Spec describes a property harness.
@@ -132,7 +148,7 @@ func Main(spec Spec) {
 			if spec.Bound != nil {
 				bound = spec.Bound(*tier, u)
 			}
-			Explore(r, base, bound, run)
+			ExploreSlice(r, base, bound, u.Slice, u.Slices, run)
 		}
 		r.UnitsDone = append(r.UnitsDone, i)
 		if len(r.Errors) > 0 {
